@@ -518,7 +518,11 @@ def h_qpe(env, fam, k, m, ukind, canary=False):
     opts = _solver_options(terms_of(phi), time, ukind, k)
     solver = QPESolver(opts)
     solver.build()
+    first = [(g.name, tuple(g.target), tuple(g.control or ()), g.parameter) for g in solver.circuit._gates]
+    # build() may be called again (e.g. after changing an option): the circuit is rebuilt, not extended
+    solver.build()
     circ = solver.circuit
+    env.check_same(len(circ._gates), len(first), "QPESolver.build() called a second time gives a circuit of the same size")
     n = max(circ.width, n_state + k)
     env.check_same(sorted(solver.qpe_qubit_list), list(range(n_state, n_state + k)), "QPE register directly above the state qubits")
     vec = eigenvector(env, basis, n_state)
